@@ -69,3 +69,32 @@ pub fn spec_code(set: u8) -> u8 {
         _ => 0,
     }
 }
+
+// ---------------------------------------------------------------------------------------------
+// Environment stubs (switched on by a harness; the early-return lines are inserted into the overlay
+// copy of the I/O functions by lib/overlay.py: ENV_STUBS)
+// ---------------------------------------------------------------------------------------------
+// NOTE: all flags live in ONE static struct with a non-zero magic field. Separate `static mut X: usize = 0`
+// items were observed to alias, under Kani 0.68, with promoted constants of the same bytes (writing 1 to
+// such a static turned the shared zero-capacity constant of `Vec::new()` into 1).
+struct Stubs { magic: u64, io: bool, save_calls: usize, rec_distance: bool, exp_constant: f64, exp_rows: usize, provider: bool }
+static mut ST: Stubs = Stubs { magic: 0x5ca1_ab1e_0dd_ba11, io: false, save_calls: 0, rec_distance: false, exp_constant: -1.0, exp_rows: 0, provider: false };
+pub fn stub_io(on: bool) { unsafe { ST.io = on; ST.save_calls = 0; } }
+pub fn stub_io_active() -> bool { unsafe { ST.magic == 0x5ca1_ab1e_0dd_ba11 && ST.io } }
+pub fn record_save() { unsafe { ST.save_calls += 1; } }
+pub fn save_calls() -> usize { unsafe { ST.save_calls } }
+/// arm the recorder that replaces `MergeSkaArray::distance`: it compares what `ska distance` hands to the
+/// pairwise computation with the expectation and ends the path there (the text output that follows is
+/// formatting of f64 values and is outside every claim)
+pub fn expect_distance(constant: f64, rows: usize) { unsafe { ST.rec_distance = true; ST.exp_constant = constant; ST.exp_rows = rows; } }
+pub fn rec_distance_active() -> bool { unsafe { ST.rec_distance } }
+pub fn record_distance(constant: f64, rows: usize) {
+    unsafe {
+        assert!(constant == ST.exp_constant, "constant = constant sites among the k-mers that pass the frequency threshold");
+        assert!(rows == ST.exp_rows, "rows compared = k-mers that pass the frequency threshold and are not constant");
+    }
+    kani::cover!(true, "pairwise computation reached");
+    kani::assume(false);
+}
+pub fn dict_provider(on: bool) { unsafe { ST.provider = on; } }
+pub fn dict_provider_active() -> bool { unsafe { ST.provider } }
